@@ -89,9 +89,9 @@ def ref_bounds(cv, axis, thr, type_measure):
                 continue
             n = tf * (cur - mn) / (mx - mn)
             poss = n + 1 - np.nanmax(n)
-            best = poss == np.nanmax(poss)
+            bests = [poss == np.nanmax(poss), poss >= np.nanmax(poss) - 1e-6]  # float32 may merge near-equal costs
 
-            def bounds(t):
+            def bounds(t, best):
                 s = np.where(~np.isnan(poss) & (poss >= t))[0]
                 s = s if len(s) else np.where(best)[0]
                 lo, hi = s.min(), s.max()
@@ -101,10 +101,11 @@ def ref_bounds(cv, axis, thr, type_measure):
                     hi = min(D - 1, hi + 1)
                 return lo, hi
 
-            lo_n, hi_n = bounds(thr + EPS)  # narrow set
-            lo_w, hi_w = bounds(thr - EPS)  # wide set
-            out[0][r, c], out[1][r, c] = axis[min(lo_w, lo_n)], axis[max(lo_w, lo_n)]
-            out[2][r, c], out[3][r, c] = axis[min(hi_n, hi_w)], axis[max(hi_n, hi_w)]
+            variants = [bounds(t, b) for t in (thr + EPS, thr - EPS) for b in bests]
+            los = [v[0] for v in variants]
+            his = [v[1] for v in variants]
+            out[0][r, c], out[1][r, c] = axis[min(los)], axis[max(los)]
+            out[2][r, c], out[3][r, c] = axis[min(his)], axis[max(his)]
     return out
 
 
